@@ -483,6 +483,12 @@ def eval_failing_multi(module_imports, cases_terms, checkers, name, shard=None, 
         except subprocess.TimeoutExpired:
             pr.kill()
             out = "[timeout]"
+        if time.time() - t0 > 90:
+            log("slow shard: %s (%d cases) took %.0fs" % (nm, len(shards[k]), time.time() - t0))
+            try:
+                shutil.copyfile(os.path.join(d, nm + ".v"), os.path.join(BUILD, "slow_" + nm + ".v"))
+            except OSError:
+                pass
         for ext in (".v", ".vo", ".glob", ".vok", ".vos"):
             try:
                 if ext != ".v" or pr.returncode == 0:
